@@ -39,7 +39,16 @@ def random_cases(rng, count):
         c.update(params(rng, s, n, exact=False))
         if rng.random() < 0.6:
             c["malpha_f"] = rng.uniform(0.1, 1.0) if rng.random() < 0.7 else rng.uniform(1.0, 4.0)
-        if rng.random() < 0.12:         # wide dynamic range: large averages first, tiny ones afterwards (all positive, rectangle rule)
+        if rng.random() < 0.1:
+            # almost evenly spaced abscissae (jitter of 2^-20 of the step): the interval means are also recorded relative to
+            # their own average (an error of 1e-6 is invisible at the 1e-4 resolution of the absolute clause)
+            t, jx = Fraction(rng.randint(-8, 8)), []
+            for _ in range(len(xs)):
+                jx.append(t)
+                t += 1 + Fraction(rng.choice([-1, 0, 1, 2, 3]), 2 ** 20)
+            jy = [v if v != 0 else Fraction(3, 2) for v in ys]
+            c.update({"x": [R(v) for v in jx], "y": [R(v) for v in jy], "trule": "rectangle", "rel": True, "container": "array"})
+        elif rng.random() < 0.12:       # wide dynamic range: large averages first, tiny ones afterwards (all positive, rectangle rule)
             m = len(ys)
             # (not dyadic: sums of dyadic values of this range are exact in binary64 and would hide an order-of-summation slip)
             big, small = Fraction(100000, 3), Fraction(1, 3000)
